@@ -58,8 +58,8 @@ PROPS["C18"] = {
         "-f / -C / builddir are process-level configuration: not decided"],
 }
 PROPS["C19"] = {
-    "units": ["sched"],
-    "probes": {"sched": ["work::BuildStates::set", "work::Work::run"]},
+    "units": ["sched", "dirty"],
+    "probes": {"sched": ["work::BuildStates::set", "work::Work::run"], "dirty": ["work::Work::record_finished"]},
     "level": "proof",
     "assumptions": SCHED_ASSUME + ["`ran N tasks` / `no work to do` (run::run_impl) and that tasks_run counts exactly the successful commands are not under contract yet (units run / dirty)",
         "the progress implementations behind &dyn Progress only read the counts they are handed"],
@@ -111,11 +111,57 @@ PROPS["C08"] = {
     "assumptions": DB_ASSUME + ["'hash is over names, mtimes and text only' is part of unit dirty (C02/C03)", "the whole-log round trip lemma (decode(encode(R)) == R) is stated per record: write_build's bytes are enc_build(ids_of(outs), ids_of(deps), hash) and read_build decodes exactly these fields"],
 }
 
+DIRTY_ASSUME = [
+    "std::fs::metadata (graph::stat) is a trusted stub ASSUMED not to fail (a missing file is MTime::Missing, never an error); `a content change comes with an mtime change` and `nothing else writes the tree` are the property's own assumptions",
+    "the hasher is uninterpreted: DefaultHasher is modelled as the sequence of values fed to it (hfed) and finish() as an uninterpreted function hfinish of that sequence; so `equal hash <=> equal manifest` is exactly the no-collision assumption (2^-64), which no contract can remove",
+    "R9 wrappers: Hash::hash / Hasher::write_u8 / finish / Option::as_deref; R10: derive(Default) for TerseHash replaced by the explicit impl; R18: `for .. in a.iter().chain(b)` split into two consecutive loops with the same body (Verus has no model of iter::Chain)",
+    "GraphFiles::id_from_canonical (hash map) and canonicalize_path (uninterpreted function canon) are trusted stubs here; db::Writer::write_build is a stub here whose body is verified in unit db (its D8 width preconditions are not repeated)",
+    "explain_hash_build (the -d explain diagnostic) is a stub: it only prints",
+    "whole-history composition (this invocation's record is what the next invocation's check_build_dirty reads) goes through unit db (C08: the record decodes to the same deps and hash) and is argued in DESIGN.md, not machine-checked end to end",
+]
+PROPS["C02"] = {
+    "units": ["dirty"],
+    "probes": {"dirty": ["work::Work::check_build_dirty", "work::Work::record_finished", "hash::build_manifest", "work::Work::check_build_files_missing"]},
+    "level": "proof",
+    "assumptions": DIRTY_ASSUME + ["'nor a step downstream of one whose outputs it changed' is decided through the scheduler (unit sched: a dependent is dirty-checked only after its producers are Done, C01) plus the fact that the outputs' mtimes are in the dependents' manifests; the composition is not a single machine-checked theorem",
+        "phony steps are always 'clean' (Ok(false)) by the code's rule; the property's stated assumption excludes phony aliases as dirtying inputs (F8)"],
+}
+PROPS["C03"] = {
+    "units": ["dirty"],
+    "probes": {"dirty": ["work::Work::check_build_dirty", "hash::build_manifest", "hash::hash_build"]},
+    "level": "proof",
+    "assumptions": DIRTY_ASSUME + ["`no work to do` / summary line (run.rs) and `-t restat` adopt mode wiring (Work::run's adopt branch records instead of running: verified only as far as record_finished's contract) are not under contract in this unit",
+        "'an upstream re-run that leaves its outputs' timestamps unchanged causes no re-runs' follows from the manifest being a function of (names, mtimes, cmdline, rspfile) only -- proved -- plus the trusted stat"],
+}
+PROPS["C09"] = {
+    "units": ["dirty"],
+    "probes": {"dirty": ["work::Work::record_finished", "work::Work::check_build_files_missing", "hash::build_manifest"]},
+    "level": "proof",
+    "assumptions": DIRTY_ASSUME + ["'discovered dependencies never change build order' is decided in unit sched (readiness is computed from ordering_ins only; tagged C01); persistence across invocations is unit db (C08: write_build/read_build carry the discovered list)",
+        "depfile reading and `/showIncludes` extraction (task.rs: run_task, extract_showincludes, read_depfile) are NOT under contract here: that the report handed to record_finished is what the command reported, and that showIncludes lines are removed from the shown output, is not decided by this check",
+        "two spellings of one file map to one FileId through canonicalize_path (C13) + the trusted name->id map; here canon is an uninterpreted function"],
+}
+
 NOT_APPLICABLE = {
     "C16": "OS-level effects (posix_spawn file actions, pipes, /bin/sh, waitpid, cross-thread output order) sit behind unsafe FFI and threads; no contract on n2's own code can express them (DESIGN.md §8)",
 }
 
 LEVEL_TEXT = {
+    "C02": {
+        "text": "Unbounded proof (Verus) on the real text of hash.rs (build_manifest, hash_build, TerseHash) and work.rs (check_build_dirty, check_build_files_missing, ensure_input_files, stat_all_outputs, record_finished): (1) the signature is hfinish of exactly [dirtying ins (name,mtime)*, sep, discovered ins (name,mtime)*, sep, cmdline, sep, rspfile?, outs (name,mtime)*, sep] -- a spec function taken from the property's list; hashing a missing file is an unreachable panic (precondition discharged at every call); (2) check_build_dirty returns Ok(false) (skip) only for a phony step or when every covered file is present AND a record exists AND the recorded signature equals the signature of the present state; (3) record_finished re-stats every dirtying input, discovered dep and output after the command and writes a record only if none is missing, with the signature of that re-stat'ed state and the new discovered list. For all graphs, file states and reports.",
+        "note": "Whole-history equivalence with a clean build is a composition of (1)-(3) with C08 (log round trip) and C01 (ordering) argued in DESIGN.md; hash collisions and the mtime assumption are outside. Trusted: stat, hasher model, id map.",
+        "design_ref": "DESIGN.md §6 C02",
+    },
+    "C03": {
+        "text": "Unbounded proof (Verus): check_build_dirty returns Ok(true) (run) only if the step is not phony and (a covered file -- dirtying input, discovered dep or output -- is missing, or there is no record, or the recorded signature differs from the signature of the present state); the signature is a function of names+mtimes of dirtying/discovered/outs, the command line and the rspfile only (order-only and validation inputs provably do not occur in hs::manifest); check_build_dirty changes nothing but the stat cache.",
+        "note": "Summary line, adopt mode wiring and the two-phase run are in run.rs (not in this unit). Trusted: as C02.",
+        "design_ref": "DESIGN.md §6 C03",
+    },
+    "C09": {
+        "text": "Unbounded proof (Verus) on the real text of Work::record_finished: the step's discovered list after a successful command is disc_list(ids, dirtying_ins) -- a spec function of the reported names (canonicalised, mapped to file ids in report order, first occurrence kept, declared dirtying inputs dropped) in which the previous list does not occur (replaced wholesale); every other build and every existing file is unchanged (disc_replaced), so build order (ordering_ins) cannot change; discovered deps are part of the signature (build_manifest) and of the covered set of check_build_files_missing, where a missing discovered dep yields Ok(Some(f)) => dirty, and Err is proved to arise only for declared non-generated inputs or generated files without ordering.",
+        "note": "task.rs (depfile/showIncludes extraction, output filtering) not under contract. Genuine defect D12 (adopt mode dropped discovered deps) found while writing this contract and fixed in /repo (3670725).",
+        "design_ref": "DESIGN.md §6 C09",
+    },
     "C12": {
         "text": "Unbounded proof (Verus) on the real text of scanner.rs (Scanner::{get,peek,next,back,read,skip,skip_spaces,expect}), all of parse.rs's Parser (read, read_vardef, read_scoped_vars, read_rule, read_pool, read_unevaluated_paths_to, read_build, read_default, skip_comment, read_ident, read_eval, read_simple_varname, read_escape, skip_spaces) and depfile.rs (skip_spaces, read_path, parse): every `get_unchecked` (rewritten to a checked index, R3) is in bounds at every call site for every byte string, the scanner's three panics are unreachable, every slice(start,end) has start <= end <= len, and every loop carries a decreases measure (buffer length minus offset) -- so for all inputs the manifest/depfile readers terminate with Ok or a ParseError and never read outside the buffer.",
         "note": "Found D1 (read past the NUL in read_vardef) -- fixed in /repo. Not yet covered: format_parse_error's str slicing (D4), canonicalize_path panics (D2, D3), error plumbing to `n2: error:`. Trusted: Scanner::new stub, utf-8/str wrappers.",
